@@ -32,6 +32,25 @@ CASES = {
     'pic': ("opts.pic()", MAIN_MACRO % 'defined(__PIC__)', {}, 'run0'),
     'pthread': ("opts.pthread()", MAIN_MACRO % 'defined(_REENTRANT)', {}, 'run0'),
 }
+# cases with their own build script: (build.bfg body, main.c, files, expectation, environment at configure time,
+# prebuilt shared libraries {path: C source})
+SCRIPT_CASES = {
+    # a prebuilt library whose file name has `.a` in the middle, next to a decoy with the shorter name
+    'library-named-x.api': (
+        "pre = shared_library('libs/libgreet.api.so')\nexecutable('prog', files=['main.c'], libs=[pre])\n",
+        'int greet(void);\nint main(void) { return greet() - 42; }\n', {}, 'run0', {},
+        {'libs/libgreet.api.so': 'int greet(void) { return 42; }\n', 'libs/libgreet.so': 'int greet(void) { return 7; }\n'}),
+    # an include directory that is also listed in CPATH still comes before a later include directory
+    'include-dir-also-in-CPATH': (
+        "executable('prog', files=['main.c'], includes=[header_directory(env.srcdir.append('first')), "
+        "header_directory(env.srcdir.append('second'))])\n",
+        '#include "which.h"\nint main(void) { return WHICH - 1; }\n',
+        {'first/which.h': '#define WHICH 1\n', 'second/which.h': '#define WHICH 2\n'}, 'run0', {'CPATH': '{src}/first'}, {}),
+    # another compiler driver and an explicitly chosen linker: warnings as errors must still accept clean code
+    'clang-with-ld.bfd-warnings-as-errors': (
+        "executable('prog', files=['main.c'], compile_options=[opts.warning('all', 'error')])\n",
+        'int main(void) { return 0; }\n', {}, 'run0', {'CC': 'clang', 'LD': 'ld.bfd'}, {}),
+}
 PLACEMENTS = {
     'target': "executable('prog', files=['main.c'], compile_options=[%(opt)s], link_options=[%(lopt)s])\n",
     'global': "global_options([%(opt)s], lang='c')\nglobal_link_options([%(lopt)s])\nexecutable('prog', files=['main.c'])\n",
@@ -53,11 +72,18 @@ class SemanticOptions(Bounded):
         for c in CASES:
             for p in PLACEMENTS:
                 yield {'option': c, 'placement': p}
+        for c in SCRIPT_CASES:
+            yield {'option': c, 'placement': 'script'}
 
     def native_check(self, case, raw):
         import shutil, subprocess, tempfile
         from pyvc.interp import REPO
-        opt, main, files, expect = CASES[raw['option']]
+        cenv, prebuilt, body = {}, {}, None
+        if raw['placement'] == 'script':
+            body, main, files, expect, cenv, prebuilt = SCRIPT_CASES[raw['option']]
+            opt = ''
+        else:
+            opt, main, files, expect = CASES[raw['option']]
         top = tempfile.mkdtemp(prefix='pyvc_ccopt_')
         try:
             src, b = top + '/src', top + '/b'
@@ -68,7 +94,8 @@ class SemanticOptions(Bounded):
                 with open(fp, 'w') as f:
                     f.write(text)
             lopt = opt if raw['option'] in LINK_TOO else ''
-            w('build.bfg', "project('p')\n" + PLACEMENTS[raw['placement']] % {'opt': opt, 'lopt': lopt})
+            w('build.bfg', "project('p')\n" + (body if body is not None else
+                                               PLACEMENTS[raw['placement']] % {'opt': opt, 'lopt': lopt}))
             w('main.c', main)
             for k, v in files.items():
                 w(k, v)
@@ -85,6 +112,15 @@ class SemanticOptions(Bounded):
 
             def run(cmd, **kw):
                 return subprocess.run(cmd, env=env, capture_output=True, text=True, timeout=300, **kw)
+            for k, v in cenv.items():
+                if k == 'CC' and not shutil.which(v):
+                    return None            # that compiler is not installed
+                env[k] = v.format(src=src)
+            for lib, csrc in prebuilt.items():
+                w(lib + '.c', csrc)
+                pr = run(['cc', '-shared', '-fPIC', '-o', src + '/' + lib, src + '/' + lib + '.c'])
+                if pr.returncode != 0:
+                    return None
             r = run([top + '/bin/bfg9000', 'configure-into', src, b, '--backend=make', '--no-resolve-packages'])
             if r.returncode != 0:
                 return self.fail(case, raw, 'configure_succeeds', stderr=r.stderr[-500:])
